@@ -8,5 +8,5 @@ python3 tools/translate.py || true
 tools/mkcoqproject.sh
 timeout 3000 make -C coq -j16
 [ -f harness/Cargo.lock ] || cp /repo/Cargo.lock harness/Cargo.lock
-(cd harness && timeout 3000 cargo build --offline --bins)
+(cd harness && timeout 3000 cargo build --offline --bins && timeout 3000 cargo build --offline --release --bin c01 --bin c02 --bin c07)
 echo setup done
